@@ -1,4 +1,5 @@
-import Secp.Proofs.WideReduce
+import Secp.Proofs.Decode
+import Secp.Proofs.WideReduceP
 /-!
 # C12 — the base-field layer computes exact, canonical arithmetic in F_p
 
